@@ -8,6 +8,7 @@ package varmq
 // the consumer runs, and the schedule.
 
 import (
+	"bytes"
 	"encoding/json"
 	"fmt"
 	"math"
@@ -173,7 +174,13 @@ func c12Decodable[T any](b []byte) bool {
 }
 
 func c12Corrupt(r *simrt.Rand, valid []byte) (adEntry, string) {
-	switch r.Intn(8) {
+	switch r.Intn(10) {
+	case 8, 9:
+		// a complete envelope with more bytes behind it (two entries run together, a stray
+		// brace, padding): not JSON as a whole, so it cannot be decoded
+		tail := [][]byte{[]byte("}"), {0, 0}, []byte("xyz"), valid, []byte(",")}[r.Intn(5)]
+		b := append(append([]byte(nil), bytes.Replace(valid, []byte(`"id":"inj`), []byte(`"id":"trail`), 1)...), tail...)
+		return adEntry{Bytes: b, Bad: 10, Sub: -1}, "trailing-bytes"
 	case 0:
 		return adEntry{Bytes: valid[:len(valid)/2], Bad: 1, Sub: -1}, "truncated"
 	case 1:
@@ -404,6 +411,10 @@ func c12Judge[T any](ep *Episode, cw *c12World) {
 	for _, s := range cw.seen {
 		seenIDs[s.ID]++
 		a := byID[s.ID]
+		if a == nil && strings.HasPrefix(s.ID, "trail") {
+			cw.add("C12.c", s.Seq, "an injected entry that is not JSON as a whole (a complete envelope followed by more bytes) ran as a job (id %q, payload %#v): it must be reported and skipped", s.ID, s.Data)
+			continue
+		}
 		if a == nil && s.ID == "wrongtype" {
 			cw.add("C12.c", s.Seq, "an injected entry whose payload encoding/json cannot decode into the payload type ran as a job (id %q, payload %#v): it must be reported and skipped", s.ID, s.Data)
 			continue
